@@ -153,6 +153,9 @@ def run(chk):
     chk.explanation = ("tx.unroll / tx.sequential_unroll evaluated by the checker's evaluator over the reference Circuit model on model state machines; io_map nodes compared with iterated / "
                        "cycle-accurate reference simulation for every initial state and input sequence (n = 1..3).")
     chk.assume("reference Circuit model semantics (add_subcircuit, strip via strip_blackboxes evaluated from source, set_type, connect)")
+    from ..structural import chain_index_rule
+
+    chain_index_rule(chk, repo, "C09.S.iteration-index", FILE, "unroll", "itr")
     P = Package(repo)
     fu = repo.func(FILE, "unroll")
     fs = repo.func(FILE, "sequential_unroll")
